@@ -98,9 +98,13 @@ def symbolic_case(rng):
         in_decomp = {id(f)}
     x00 = pep.set_initial_point()
     y00 = pep.set_initial_point()
-    startkind = rng.choice(["leaf", "combination", "evaluated", "alias_of_evaluated"] + (["terms_evaluated"] if g2 is not None else []))
+    startkind = rng.choice(["leaf", "combination", "evaluated", "alias_of_evaluated", "stationary"] + (["terms_evaluated"] if g2 is not None else []))
     if startkind == "leaf":
         x0 = x00
+    elif startkind == "stationary":
+        # the method starts at (or has come back to) a declared stationary point: the null (sub)gradient recorded there is
+        # ONE subgradient, a function that is not differentiable has others
+        x0 = target.stationary_point()
     elif startkind == "combination":
         x0 = x00 - 0.5 * y00
     elif startkind == "evaluated":
@@ -161,6 +165,13 @@ def symbolic_case(rng):
         nb = before[id(target)][1]
         already = any(pkey(P.of(t[0])) == pkey(P0) for t in target.list_of_points[:nb])
         allowed = 0 if (already and target.reuse_gradient) else 1
+        # ... and exactly that many: a function that is not differentiable (every term of a sum must be for the sum to be)
+        # is asked for a NEW subgradient, whatever it already holds at that point
+        required = 0 if (already and diff) else 1
+        if len(target.list_of_points) - nb < required:
+            F("step_reuses_a_subgradient_of_a_nondifferentiable_function:inexact_gradient",
+              "inexact_gradient_step recorded no new sample on f although f is not differentiable (its %s term is not; f %s evaluated at "
+              "that point before): the step is tied to the subgradient recorded earlier" % ("only" if g2 is None else "first", "was" if already else "was not"))
         if len(target.list_of_points) - nb > allowed:
             F("step_records_extra_samples:inexact_gradient", "inexact_gradient_step recorded %d new sample(s) on f, at most %d expected "
               "(f %s evaluated at that point before, reuse_gradient=%s)" % (len(target.list_of_points) - nb, allowed, "was" if already else "was not", target.reuse_gradient))
